@@ -1,4 +1,136 @@
-import Physt.Theorems.C01
+import Physt.Proofs.Ops
+import Physt.Theorems.C03
+import Physt.Theorems.C13
+/-!
+# C05 — adding histograms equals histogramming the combined data
+-/
 namespace Physt
-theorem C05_placeholder : True := trivial
+open H1
+
+/-- **Addition with equal bins is pointwise**: contents, squared errors, underflow / overflow /
+    inner-missed and statistics add; the dtype is numpy's promotion; bins are unchanged.
+    (Operands are values: `add` builds a new record, `iadd` only replaces its left operand.) -/
+theorem C05_pointwise (fo : FloatOps) (h o r : H1) (hs : h.sameBins fo o = true) (hr : h.iadd fo o = .ok r) :
+    r.freq = zipAdd h.freq o.freq ∧ r.err2 = zipAdd h.err2 o.err2 ∧
+    r.under = nadd h.under o.under ∧ r.over = nadd h.over o.over ∧ r.inner = nadd h.inner o.inner ∧
+    r.stats = h.stats.add o.stats ∧ r.dtype = h.dtype.promote o.dtype ∧ r.binning = h.binning := by
+  obtain ⟨a, b, c, d, e, f, g, i, _⟩ := iadd_same_ok fo h o r hs hr
+  exact ⟨b, c, d, e, f, g, a, i⟩
+
+theorem zipAdd_comm (a b : List Rat) : zipAdd a b = zipAdd b a := by
+  apply List.ext_getElem?
+  intro i
+  simp only [zipAdd_getElem?]
+  cases a[i]? <;> cases b[i]? <;> simp [add_comm]
+
+theorem nadd_comm (a b : NRat) : nadd a b = nadd b a := by
+  cases a <;> cases b <;> simp [nadd, add_comm]
+
+theorem minO_comm (a b : Option Rat) : Stats.minO a b = Stats.minO b a := by
+  cases a <;> cases b <;> simp only [Stats.minO]
+  rename_i x y
+  congr 1
+  by_cases h1 : y < x <;> by_cases h2 : x < y <;> simp [h1, h2] <;> linarith
+
+theorem maxO_comm (a b : Option Rat) : Stats.maxO a b = Stats.maxO b a := by
+  cases a <;> cases b <;> simp only [Stats.maxO]
+  rename_i x y
+  congr 1
+  by_cases h1 : y < x <;> by_cases h2 : x < y <;> simp [h1, h2] <;> linarith
+
+theorem stats_add_comm (a b : Stats) : a.add b = b.add a := by
+  unfold Stats.add
+  by_cases ha : a.valid = true <;> by_cases hb : b.valid = true <;>
+    simp [ha, hb, add_comm, minO_comm a.min b.min, maxO_comm a.max b.max]
+
+theorem sameBins_symm (fo : FloatOps) (a b : H1) : a.sameBins fo b = b.sameBins fo a := by
+  unfold sameBins
+  by_cases h : a.bins fo = b.bins fo
+  · simp [h]
+  · have : ¬ b.bins fo = a.bins fo := fun e => h e.symm
+    simp [h, this]
+
+/-- **Commutativity**: `a + b` and `b + a` agree on everything the property pins. -/
+theorem C05_comm (fo : FloatOps) (a b r1 r2 : H1) (hs : a.sameBins fo b = true)
+    (h1 : a.iadd fo b = .ok r1) (h2 : b.iadd fo a = .ok r2) :
+    r1.freq = r2.freq ∧ r1.err2 = r2.err2 ∧ r1.under = r2.under ∧ r1.over = r2.over ∧ r1.inner = r2.inner ∧
+    r1.stats = r2.stats ∧ r1.dtype = r2.dtype ∧ r1.bins fo = r2.bins fo := by
+  obtain ⟨f1, e1, u1, o1, i1, s1, d1, b1⟩ := C05_pointwise fo a b r1 hs h1
+  obtain ⟨f2, e2, u2, o2, i2, s2, d2, b2⟩ := C05_pointwise fo b a r2 (by rw [sameBins_symm]; exact hs) h2
+  have hb : a.bins fo = b.bins fo := by simpa [sameBins] using hs
+  refine ⟨by rw [f1, f2, zipAdd_comm], by rw [e1, e2, zipAdd_comm], by rw [u1, u2, nadd_comm],
+    by rw [o1, o2, nadd_comm], by rw [i1, i2, nadd_comm], by rw [s1, s2, stats_add_comm], ?_, ?_⟩
+  · rw [d1, d2]; exact (C13_promote_algebra.1 _ (DType.mem_all _) _ (DType.mem_all _))
+  · simp only [H1.bins, b1, b2] at hb ⊢; exact hb
+
+/-- **Associativity** of the pointwise sums (contents, errors, missed counts). -/
+theorem C05_assoc (a b c : List Rat) (x y z : NRat) :
+    zipAdd (zipAdd a b) c = zipAdd a (zipAdd b c) ∧ nadd (nadd x y) z = nadd x (nadd y z) :=
+  ⟨zipAdd_assoc a b c, nadd_assoc x y z⟩
+
+/-- **h(A) + h(B) = h(A and B together)**: if `a` holds the histogram of `A` and `b` that of `B`
+    over the same static bins, their sum holds the histogram of `A ++ B`. -/
+theorem C05_combined (fo : FloatOps) (bins : Bins) (ire : Bool) (hb : Rising bins) (hne : bins ≠ [])
+    (a b r : H1) (A B : List Pt) (ta : Tracks bins ire a A) (tb : Tracks bins ire b B)
+    (hr : a.iadd fo b = .ok r) : Tracks bins ire r (A ++ B) := by
+  have hs : a.sameBins fo b = true := by simp [sameBins, H1.bins, ta.binning, tb.binning]
+  obtain ⟨f, e, u, o, _, _, _, bn⟩ := C05_pointwise fo a b r hs hr
+  have hk := (iadd_same_ok fo a b r hs hr).2.2.2.2.2.2.2.2
+  have hm := calc1d_append_missed bins hne A B
+  exact ⟨by rw [bn, ta.binning], by rw [hk, ta.keep],
+    by rw [f, ta.freq, tb.freq, calc1d_append_freq bins hb],
+    by rw [e, ta.err2, tb.err2, calc1d_append_err2 bins hb],
+    by rw [u, ta.under, tb.under, hm.1], by rw [o, ta.over, tb.over, hm.2]⟩
+
+/-- **Any partition into chunks** (a list, a collection, dask chunks): summing the chunk
+    histograms in order gives the histogram of all the data; by `C03_order` / `C01_flatten` the
+    order of the chunks and of the data inside them does not matter either. -/
+theorem C05_chunks (fo : FloatOps) (bins : Bins) (ire : Bool) (hb : Rising bins) (hne : bins ≠ [])
+    (first : H1) (F : List Pt) (tf : Tracks bins ire first F)
+    (rest : List (H1 × List Pt)) (hrest : ∀ p ∈ rest, Tracks bins ire p.1 p.2)
+    (r : H1) (hr : rest.foldlM (fun acc p => acc.iadd fo p.1) first = .ok r) :
+    Tracks bins ire r (F ++ (rest.map (·.2)).flatten) := by
+  induction rest generalizing first F with
+  | nil => simp only [List.foldlM_nil, pure, Except.pure] at hr; cases hr; simpa using tf
+  | cons p ps ih =>
+    simp only [List.foldlM_cons, bind, Except.bind] at hr
+    cases h1 : first.iadd fo p.1 with
+    | error e => simp [h1] at hr
+    | ok m =>
+      simp only [h1] at hr
+      have tm := C05_combined fo bins ire hb hne first p.1 m F p.2 tf (hrest p (List.mem_cons_self ..)) h1
+      have := ih m (F ++ p.2) tm (fun q hq => hrest q (List.mem_cons_of_mem _ hq)) hr
+      simpa [List.append_assoc] using this
+
+/-- **Refusal.** Operands with different bins are refused unless the left one is adaptive. -/
+theorem C05_refuse (fo : FloatOps) (h o : H1) (hs : h.sameBins fo o = false) (ha : h.binning.isAdaptive = false) :
+    ∃ e, h.iadd fo o = .error e :=
+  iadd_refused fo h o hs ha
+
+/-- **Union of two ranges on the common grid.** For two non-empty grids of the same width and
+    shift the adapted grid starts at the lower of the two first cells and ends at the higher of the
+    two last cells; different widths or shifts are refused. -/
+theorem C05_union (g o : Grid) (hg : 0 < g.count) (ho : 0 < o.count) :
+    (g.w = o.w → g.shift = o.shift → ∃ g' r1 r2, adaptGrids g o = .ok (g', r1, r2) ∧
+      g'.tmin = min g.tmin o.tmin ∧ g'.tmin + g'.count = max (g.tmin + g.count) (o.tmin + o.count) ∧
+      g'.w = g.w ∧ g'.shift = g.shift) ∧
+    (g.w ≠ o.w → ∃ e, adaptGrids g o = .error e) := by
+  constructor
+  · intro hw hs
+    unfold adaptGrids
+    have h1 : ¬ o.count = 0 := by omega
+    have h2 : ¬ g.count = 0 := by omega
+    simp only [hw, hs, bne_self_eq_false, Bool.false_eq_true, if_false, h1, h2, bind, Except.bind, pure, Except.pure]
+    refine ⟨_, _, _, rfl, rfl, ?_, hw.symm ▸ rfl, rfl⟩
+    simp only
+    omega
+  · intro hw
+    unfold adaptGrids
+    have : (g.w != o.w) = true := by simpa using hw
+    simp [this, bind, Except.bind, throw, throwThe, MonadExceptOf.throw]
+
+/-! Non-vacuity -/
+example : (adaptGrids { w := 1, tmin := 2, count := 3 } { w := 1, tmin := -1, count := 2 }).toOption.map
+    (fun p => (p.1.tmin, p.1.count)) = some (-1, 6) := by decide +kernel
+
 end Physt
